@@ -84,7 +84,8 @@ fn install_sink() {
                     | "sync_transfer" => (par::logical(e.args[0]), e.args[1] as i64),
                     _ => (e.args[0] as i64, e.args[1] as i64),
                 };
-                ev!("e": "hk", "name": e.name, "k": k, "k2": k2, "a0": a0, "a1": a1, "a2": e.args[2], "a3": e.args[3], "text": e.text);
+                ev!("e": "hk", "name": e.name, "k": k, "k2": k2, "a0": a0, "a1": a1, "a2": e.args[2], "a3": e.args[3], "text": e.text,
+                    "kj": e.key.map(items::fn_index_fast).unwrap_or(0));
             }
             "dg_edges" => {
                 // the wait-for edges after update_transferred_edges, as pairs of logical thread indices
